@@ -660,6 +660,14 @@ class CustomSD(BaseCorrelations):
         if shape == 'upper-triangle':
             integral = self.eta_function(time_1 + delta, **kwargs) \
                        - self.eta_function(time_1, **kwargs)
+            if time_1 != 0.0:
+                # the inner integral starts at t'-t'' = time_1, not at zero
+                integral -= delta * _complex_integral(
+                    lambda tau: self.correlation(tau, **kwargs),
+                    a=0.0,
+                    b=time_1,
+                    epsrel=epsrel,
+                    limit=subdiv_limit)
         elif shape == 'square':
             integral = self.eta_function(time_1 + delta, **kwargs) \
                        - 2.0 * self.eta_function(time_1, **kwargs) \
